@@ -158,6 +158,32 @@ pub struct Field {
     pub off: usize,
     pub width: usize,
     pub kind: &'static str, // "num" | "xmlnum" | "xmlref" | "part"
+    /// what the field is, independent of its position: element@attribute, record type + payload offset ...
+    /// (names the call site of a finding: "abort:alloc:<fmt>:<part class>:<desc>")
+    pub desc: String,
+}
+
+/// "xl/worksheets/sheet12.xml" -> "sheet#.xml"
+fn part_class(part: &str) -> String {
+    let base = part.rsplit('/').next().unwrap_or(part).rsplit(':').next().unwrap_or(part);
+    let mut out = String::new();
+    let mut last_hash = false;
+    for c in base.chars() {
+        if c.is_ascii_digit() { if !last_hash { out.push('#'); last_hash = true; } } else { out.push(c); last_hash = false; }
+    }
+    out
+}
+
+/// element and attribute name in front of the '=' at `eq`
+fn xml_attr_desc(b: &[u8], eq: usize) -> String {
+    let mut a = eq;
+    while a > 0 && !(b[a - 1] == b' ' || b[a - 1] == b'\n' || b[a - 1] == b'<') { a -= 1; }
+    let attr = String::from_utf8_lossy(&b[a..eq]).to_string();
+    let mut e = a;
+    while e > 0 && b[e - 1] != b'<' { e -= 1; }
+    let mut e2 = e;
+    while e2 < b.len() && !(b[e2] == b' ' || b[e2] == b'>' || b[e2] == b'/') { e2 += 1; }
+    format!("{}@{}", String::from_utf8_lossy(&b[e..e2]), attr)
 }
 
 const NUM_CLASSES: [&str; 9] = ["zero", "one", "minus1", "plus1", "maxm1", "max", "signbit", "double", "half"];
@@ -191,7 +217,9 @@ fn scan_xml(part: &str, b: &[u8], out: &mut Vec<Field>) {
                 e += 1;
             }
             if e < b.len() {
-                out.push(Field { part: part.into(), off: j, width: e + 1 - j, kind: "xmltag" });
+                let mut ne = j + 1;
+                while ne < e && !(b[ne] == b' ' || b[ne] == b'>' || (b[ne] == b'/' && ne > j + 1)) { ne += 1; }
+                out.push(Field { part: part.into(), off: j, width: e + 1 - j, kind: "xmltag", desc: format!("<{}>", String::from_utf8_lossy(&b[j + 1..ne])) });
                 ntag += 1;
             }
             j = e;
@@ -207,10 +235,10 @@ fn scan_xml(part: &str, b: &[u8], out: &mut Vec<Field>) {
             while e < b.len() && b[e] != b'"' { e += 1; }
             let v = &b[s..e];
             if !v.is_empty() && v.len() <= 12 && v.iter().all(|c| c.is_ascii_digit()) {
-                out.push(Field { part: part.into(), off: s, width: e - s, kind: "xmlnum" });
+                out.push(Field { part: part.into(), off: s, width: e - s, kind: "xmlnum", desc: xml_attr_desc(b, i) });
                 count += 1;
             } else if !v.is_empty() && v.len() <= 20 && v[0].is_ascii_uppercase() && v.iter().all(|c| c.is_ascii_uppercase() || c.is_ascii_digit() || *c == b':' || *c == b'$') && v.iter().any(|c| c.is_ascii_digit()) {
-                out.push(Field { part: part.into(), off: s, width: e - s, kind: "xmlref" });
+                out.push(Field { part: part.into(), off: s, width: e - s, kind: "xmlref", desc: xml_attr_desc(b, i) });
                 count += 1;
             }
             i = e;
@@ -220,7 +248,11 @@ fn scan_xml(part: &str, b: &[u8], out: &mut Vec<Field>) {
             let mut e = s;
             while e < b.len() && b[e].is_ascii_digit() { e += 1; }
             if e < b.len() && b[e] == b'<' && e - s <= 12 {
-                out.push(Field { part: part.into(), off: s, width: e - s, kind: "xmlnum" });
+                let mut t = i;
+                while t > 0 && b[t - 1] != b'<' { t -= 1; }
+                let mut t2 = t;
+                while t2 < i && b[t2] != b' ' { t2 += 1; }
+                out.push(Field { part: part.into(), off: s, width: e - s, kind: "xmlnum", desc: format!("{}#text", String::from_utf8_lossy(&b[t..t2])) });
                 count += 1;
             }
             i = e;
@@ -235,20 +267,21 @@ fn scan_biff(part: &str, b: &[u8], out: &mut Vec<Field>) {
     let mut nrec = 0;
     while pos + 4 <= b.len() && nrec < 300 {
         let len = u16::from_le_bytes([b[pos + 2], b[pos + 3]]) as usize;
-        out.push(Field { part: part.into(), off: pos, width: 2, kind: "num" });      // record type
-        out.push(Field { part: part.into(), off: pos + 2, width: 2, kind: "num" });  // record length
+        let rt = u16::from_le_bytes([b[pos], b[pos + 1]]);
+        out.push(Field { part: part.into(), off: pos, width: 2, kind: "num", desc: format!("rec{:04X}.type", rt) });      // record type
+        out.push(Field { part: part.into(), off: pos + 2, width: 2, kind: "num", desc: format!("rec{:04X}.len", rt) });  // record length
         if pos + 4 + len <= b.len() {
-            out.push(Field { part: part.into(), off: pos, width: 4 + len, kind: "rec" });
+            out.push(Field { part: part.into(), off: pos, width: 4 + len, kind: "rec", desc: format!("rec{:04X}", rt) });
             if len > 0 && nrec < 120 {
-                out.push(Field { part: part.into(), off: pos, width: 4 + len, kind: "reccut" });
+                out.push(Field { part: part.into(), off: pos, width: 4 + len, kind: "reccut", desc: format!("rec{:04X}", rt) });
             }
         }
         let pl = len.min(b.len().saturating_sub(pos + 4));
         for o in (0..pl.min(14)).step_by(2) {
-            if o + 2 <= pl { out.push(Field { part: part.into(), off: pos + 4 + o, width: 2, kind: "num" }); }
+            if o + 2 <= pl { out.push(Field { part: part.into(), off: pos + 4 + o, width: 2, kind: "num", desc: format!("rec{:04X}@{}w2", rt, o) }); }
         }
         for o in (0..pl.min(16)).step_by(4) {
-            if o + 4 <= pl { out.push(Field { part: part.into(), off: pos + 4 + o, width: 4, kind: "num" }); }
+            if o + 4 <= pl { out.push(Field { part: part.into(), off: pos + 4 + o, width: 4, kind: "num", desc: format!("rec{:04X}@{}w4", rt, o) }); }
         }
         pos += 4 + len;
         nrec += 1;
@@ -261,6 +294,7 @@ fn scan_xlsb(part: &str, b: &[u8], out: &mut Vec<Field>) {
     while pos < b.len() && nrec < 300 {
         let start = pos;
         let idlen = if b[pos] & 0x80 != 0 { 2 } else { 1 };
+        let rt: u16 = if idlen == 2 && pos + 1 < b.len() { (b[pos] & 0x7F) as u16 | ((b[pos + 1] as u16) << 7) } else { b[pos] as u16 };
         pos += idlen;
         let mut len = 0usize;
         let mut lenbytes = 0;
@@ -273,17 +307,17 @@ fn scan_xlsb(part: &str, b: &[u8], out: &mut Vec<Field>) {
             if c & 0x80 == 0 { break; }
         }
         if pos + len <= b.len() && lenbytes == 1 && len < 120 {
-            out.push(Field { part: part.into(), off: start, width: pos - start + len, kind: "rec12" });
+            out.push(Field { part: part.into(), off: start, width: pos - start + len, kind: "rec12", desc: format!("brt{:04X}", rt) });
         }
-        out.push(Field { part: part.into(), off: start, width: 1, kind: "num" });                 // id byte
-        out.push(Field { part: part.into(), off: start + idlen, width: 1, kind: "num" });         // first length byte
+        out.push(Field { part: part.into(), off: start, width: 1, kind: "num", desc: format!("brt{:04X}.id", rt) });                 // id byte
+        out.push(Field { part: part.into(), off: start + idlen, width: 1, kind: "num", desc: format!("brt{:04X}.len", rt) });         // first length byte
         let _ = lenbytes;
         let pl = len.min(b.len().saturating_sub(pos));
         for o in (0..pl.min(16)).step_by(4) {
-            if o + 4 <= pl { out.push(Field { part: part.into(), off: pos + o, width: 4, kind: "num" }); }
+            if o + 4 <= pl { out.push(Field { part: part.into(), off: pos + o, width: 4, kind: "num", desc: format!("brt{:04X}@{}w4", rt, o) }); }
         }
         for o in (0..pl.min(8)).step_by(2) {
-            if o + 2 <= pl { out.push(Field { part: part.into(), off: pos + o, width: 2, kind: "num" }); }
+            if o + 2 <= pl { out.push(Field { part: part.into(), off: pos + o, width: 2, kind: "num", desc: format!("brt{:04X}@{}w2", rt, o) }); }
         }
         pos += len;
         nrec += 1;
@@ -292,7 +326,7 @@ fn scan_xlsb(part: &str, b: &[u8], out: &mut Vec<Field>) {
 
 fn scan_cfb_container(b: &[u8], out: &mut Vec<Field>) {
     for (off, w) in [(0x18usize, 2usize), (0x1A, 2), (0x1E, 2), (0x20, 2), (0x28, 4), (0x2C, 4), (0x30, 4), (0x38, 4), (0x3C, 4), (0x40, 4), (0x44, 4), (0x48, 4), (0x4C, 4), (0x50, 4)] {
-        out.push(Field { part: "container".into(), off, width: w, kind: "num" });
+        out.push(Field { part: "container".into(), off, width: w, kind: "num", desc: format!("hdr@0x{:X}", off) });
     }
     let ssz = 512usize;
     // first FAT sector (header DIFAT[0]) and the directory sector(s)
@@ -301,14 +335,14 @@ fn scan_cfb_container(b: &[u8], out: &mut Vec<Field>) {
     let nsect = (b.len() - 512) / ssz;
     if fat0 < nsect {
         for i in 0..nsect.min(48) {
-            out.push(Field { part: "container".into(), off: 512 + fat0 * ssz + 4 * i, width: 4, kind: "num" });
+            out.push(Field { part: "container".into(), off: 512 + fat0 * ssz + 4 * i, width: 4, kind: "num", desc: "fat".to_string() });
         }
     }
     if dir0 < nsect {
         for e in 0..4 {
             let base = 512 + dir0 * ssz + 128 * e;
             for (o, w) in [(0x40usize, 2usize), (0x42, 1), (0x44, 4), (0x48, 4), (0x4C, 4), (0x74, 4), (0x78, 4)] {
-                out.push(Field { part: "container".into(), off: base + o, width: w, kind: "num" });
+                out.push(Field { part: "container".into(), off: base + o, width: w, kind: "num", desc: format!("dir@0x{:X}", o) });
             }
         }
     }
@@ -325,14 +359,14 @@ pub fn fields(seed: &Seed) -> Vec<Field> {
                 } else if n.ends_with(".bin") && !n.contains("vbaProject") {
                     scan_xlsb(&part, b, &mut out);
                 }
-                out.push(Field { part: format!("whole:{}", part), off: 0, width: b.len(), kind: "part" });
+                out.push(Field { part: format!("whole:{}", part), off: 0, width: b.len(), kind: "part", desc: "whole".to_string() });
             }
         }
         Body::Cfb(streams) => {
             for (n, b) in streams {
                 let part = format!("stream:{}", n);
                 scan_biff(&part, b, &mut out);
-                out.push(Field { part: format!("whole:{}", part), off: 0, width: b.len(), kind: "part" });
+                out.push(Field { part: format!("whole:{}", part), off: 0, width: b.len(), kind: "part", desc: "whole".to_string() });
             }
             scan_cfb_container(&seed.bytes(), &mut out);
         }
@@ -734,6 +768,18 @@ pub fn run(args: &Args) -> i32 {
     all.sort_by_key(|r| r["id"].as_u64().unwrap_or(0));
     let mut out = std::io::BufWriter::new(std::fs::File::create(args.req("out")).unwrap());
     let mut rep = Report::new();
+    // the site of a resource finding: which field(s) of which kind of part were faulted
+    let fl_all: Vec<Vec<Field>> = sd.iter().map(fields).collect();
+    let site_of = |sc: &Value| -> String {
+        let si = sc["seed"].as_u64().unwrap_or(1) as usize - 1;
+        let mut v: Vec<String> = sc["faults"].as_array().map(|a| a.iter().map(|x| {
+            let fi = x[0].as_u64().unwrap_or(1) as usize - 1;
+            match fl_all.get(si).and_then(|f| f.get(fi)) { Some(f) => format!("{}:{}", part_class(&f.part), f.desc), None => "?".to_string() }
+        }).collect()).unwrap_or_default();
+        v.sort();
+        v.dedup();
+        v.join(" & ")
+    };
     if let Some(h) = all.iter().find(|r| r["outcome"] == "harness") {
         eprintln!("harness error while applying a fault script: {}", h);
         return 2;
@@ -746,14 +792,14 @@ pub fn run(args: &Args) -> i32 {
             "ok" => {
                 // resource proportionality: memory <= 64 x size + 64 MB, CPU time <= 3 s + 1 ms / KB
                 let size = r["size"].as_u64().unwrap_or(1);
-                if r["peak"].as_u64().unwrap_or(0) > 64 * size + 64 * 1024 * 1024 { Some(format!("memory:out-of-proportion:{}", seed_fmt(sc))) }
+                if r["peak"].as_u64().unwrap_or(0) > 64 * size + 64 * 1024 * 1024 { Some(format!("memory:out-of-proportion:{}:{}", seed_fmt(sc), site_of(sc))) }
                 else if r["cpu_ms"].as_u64().unwrap_or(0) > 3000 + size / 1024 { Some("time:out-of-proportion".to_string()) }
                 else { None }
             }
             "panic" => Some(panic_key(r["msg"].as_str().unwrap_or(""))),
             "abort" => {
                 let m = r["msg"].as_str().unwrap_or("");
-                Some(format!("abort:{}:{}", if m.contains("memory allocation") { "alloc" } else { "other" }, seed_fmt(sc)))
+                Some(format!("abort:{}:{}:{}", if m.contains("memory allocation") { "alloc" } else { "other" }, seed_fmt(sc), site_of(sc)))
             }
             o => Some(o.to_string()),
         };
